@@ -3,8 +3,8 @@ import os, sys, itertools
 from common import *
 
 PID = 'C05'
-TARGETS = ['Properties/C05.vo', 'Bridge/IntBridge.vo', 'Bridge/CodegenBridge.vo']
-KERNELS = ['G6_int', 'G11_codegen']      # G11: the struct runs the code generator builds from adjacent Int fields
+TARGETS = ['Properties/C05.vo', 'Bridge/IntBridge.vo', 'Bridge/CodegenBridge.vo', 'Bridge/PlumbingBridge.vo']
+KERNELS = ['G6_int', 'G11_codegen', 'G19_field_ctor']      # G11: the struct runs the code generator builds from adjacent Int fields
 PROP_FILE = 'Properties/C05.v'
 
 HEADER_PY = "from bisturi.packet import Packet\nfrom bisturi.field import Int, Data, Ref, Bits\n"
